@@ -84,6 +84,10 @@ def run(c):
                       "a connection reset before any byte on inputs larger than the request buffer is inconclusive at the socket and decided in-process"]
     rng = c.rng
     t = treegen.generate(rng.fork("tree"), depth=2, tag="c04")
+    late = {}
+    c.need("late senders answered")
+    late_thread = threading.Thread(target=late_senders, args=(t, late))
+    late_thread.start()
     try:
         # a large file: sums over many ranges of it leave the 32-bit range
         t.add_file("/big1m.bin", rng.bytes(1 << 20))
@@ -151,7 +155,22 @@ def run(c):
             st = fuzzlane.run(c, "C04", int(os.environ.get("VERIF_FUZZ_SECONDS", "300")), seeds, t.root, only_ops={"serve"})
             c.extra["libfuzzer_lane"] = st
             c.cls("libfuzzer", st.get("coverage_edges", 0) > 0)
+        late_thread.join(120)
+        if late_thread.is_alive() or "answers" not in late:
+            c.inconc("the late-sender scenario did not finish: %s" % late.get("error", "still running"))
+        else:
+            for name, (buf, end) in late["answers"].items():
+                c.ev()
+                c.cls("late-sender", name)
+                resp, errs = oracles.one_response(buf, None, raw_request=late["raw"])
+                if errs or resp is None or resp.status != 200:
+                    c.violation("C04:late-sender:%s:%s" % (name, "no-response" if not buf else "status-%s" % (resp.status if resp else "?")),
+                                "a client that sent its (valid) request %s s after connecting (%s) was answered %r (%s)" % ("7" if name != "alone" else "11", name, buf[:60], errs[:1] or end), {"scenario": name, "response_head": buf[:300].decode("latin-1")})
+                else:
+                    c.seen("late senders answered")
     finally:
+        if late_thread.is_alive():
+            late_thread.join(120)
         t.cleanup()
 
 
@@ -209,6 +228,54 @@ def engine_b(c, t, pick, lane, concurrent, args=None, ip="127.0.0.1"):
     finally:
         if srv is not None:
             srv.cleanup()
+
+
+def late_senders(t, result):
+    """background scenario: clients that are slow to SEND.  (a) the pool is exhausted by idle peers when the victim connects,
+    the idle peers leave, the victim sends its request 7 s after connecting; (b) a lone client sends after 11 s.
+    'Once those bytes have arrived' the server answers - however long they took."""
+    import socket, time
+    f = sorted(x for x in t.files if 30 < len(t.files[x]) < 3000)[0]
+    raw = ("GET %s HTTP/1.1\r\nHost: x\r\n\r\n" % f).encode()
+    srv = server.Server(t.root, threads=2)
+    try:
+        if not srv.started:
+            result["error"] = "server did not start"
+            return
+        idle = [srv.connect() for _ in range(3)]
+        time.sleep(0.1)
+        victim = srv.connect(timeout=30)
+        lone_srv = server.Server(t.root, threads=2)
+        lone = lone_srv.connect(timeout=30) if lone_srv.started else None
+        time.sleep(0.5)
+        for s in idle:
+            s.close()
+        time.sleep(6.5)
+        out = {}
+        for name, s, extra in (("pool-exhausted-at-accept", victim, 0), ("alone", lone, 4.0)):
+            if s is None:
+                continue
+            time.sleep(extra)
+            buf, end = b"", "eof"
+            try:
+                # whatever arrived before we sent anything is part of the answer stream too
+                s.sendall(raw)
+                while True:
+                    ch = s.recv(65536)
+                    if not ch:
+                        break
+                    buf += ch
+            except socket.timeout:
+                end = "timeout"
+            except OSError:
+                end = "reset"
+            s.close()
+            out[name] = (buf, end)
+        result["answers"] = out
+        result["raw"] = raw
+        lone_srv.cleanup()
+    finally:
+        srv.cleanup()
 
 
 def ipv6_available():
